@@ -64,8 +64,10 @@ pub fn replay(prop: &str, part: &str, case: &serde_json::Value) -> Option<CaseRe
         ("C18", _) => c18::eval(&sc()?),
         ("C04", _) => c04::eval(&sc()?),
         ("C05", _) => c05::eval(&sc()?),
+        ("C06", "host_drops") => c06::eval_host_drops(&sc()?),
         ("C06", _) => c06::eval(&sc()?),
         ("C07", _) => c07::eval(&sc()?),
+        ("C08", "decode") => c14::replay("decode", case)?,
         ("C08", _) => c08::eval(&sc()?),
         ("C09", "detection") => c09::eval_detect(&sc()?),
         ("C09", _) => c09::eval_false_alarm(&sc()?),
